@@ -22,13 +22,12 @@ def route(case):
         return "ha_race"
     return "ha"
 
-# repaired = /repo HEAD (all five earlier C10 fixes are committed) + the two staleness filters of Stale.v:
-#   so: a heartbeat built before one that was already handled is discarded   (fix patch fixes/C10_stale_order.patch)
-#   sl: a heartbeat built before the receiver's last peer-loss detection is discarded (needs a common clock:
-#       specification only, no patch)
-# def_so_sl = HEAD today; def_sl = HEAD + the so patch; def_so for completeness.  Earlier defects have no variant:
-# a regression to any of them is a VIOLATION.
-VARIANTS = ["repaired", "def_sl", "def_so", "def_so_sl"]
+# repaired = /repo HEAD (six C10 fixes committed, the last one f8a6845: heartbeats older than one already handled are
+# ignored) + the one staleness filter that is still a specification:
+#   sl: a heartbeat built before the receiver's last peer-loss detection is discarded (needs a common clock / epoch
+#       handshake: `known:` finding stale-heartbeat-built-before-peer-loss, no patch)
+# def_sl = HEAD.  Fixed defects have no variant: a regression to any of them is a VIOLATION.
+VARIANTS = ["repaired", "def_sl"]
 MODEL_NEEDS_IMPL = False
 
 RULE = ("case = configuration of both nodes (node id as a Go string, priority, preempt, decrement, #tracked interfaces) + "
@@ -304,26 +303,18 @@ def classify(case, impl, model):
                  % (i, op, xi, yi))
 
 
-SIG = {"so": "stale-heartbeat-older-than-handled", "sl": "stale-heartbeat-built-before-peer-loss"}
-
-
 def signature(case, impl, models):
-    """Called when the whole implementation line equals a non-repaired variant.  The signature names the
-    staleness class behind the FIRST divergence from the repaired model, which must be the handling of a
-    heartbeat (dl/d1/d2/pD): the single-defect variant that reproduces the implementation up to that step."""
+    """Called when the whole implementation line equals def_sl (= HEAD).  Specific: the FIRST divergence from the
+    repaired model must be the handling of a heartbeat (dl/d1/d2/pD, or rl finishing a parked handler)."""
+    if impl != models.get("def_sl"):
+        return None
     d = _first_diff(impl, models["repaired"])
     if d is None:
         return None
     i = d[0]
     ops = _split(case)[1]
-    if not (0 < i <= len(ops)) or ops[i - 1][:2] not in ("dl", "d1", "d2", "pD", "rl"):
-        return None
-    it = impl.split(" ")[:i + 1]
-    for k in ("sl", "so"):
-        if models.get("def_" + k, "").split(" ")[:i + 1] == it:
-            return SIG[k]
-    if models.get("def_so_sl", "").split(" ")[:i + 1] == it:
-        return SIG["sl"]      # stale in both senses
+    if 0 < i <= len(ops) and ops[i - 1][:2] in ("dl", "d1", "d2", "pD", "rl"):
+        return "stale-heartbeat-built-before-peer-loss"
     return None
 
 
